@@ -527,7 +527,7 @@ def threads_stage(prop, tier, seed, races=6, race_threads=8):
             fh.write(json.dumps(h) + "\n")
     # reference: each call alone, in its own fresh single-threaded process
     ref_lines = ""
-    for c in range(11):
+    for c in range(12):
         refp = os.path.join(wd, f"ref{c}.ndjson")
         vlib.run_harness(["threads", "--reference", str(c), "--out", refp])
         ref_lines += open(refp).read()
